@@ -41,8 +41,9 @@ LEDGER = {
                 need=dict(role_ok=10, role_rej=5, acct_ok=3, acct_rej=2, handover_ok=1, flag_ok=3)),
     "C04": dict(profile="freeze", preds=["P04_Immobile", "P04_NoCreditWhilePaused", "P04_FlagOnly", "P04_FlagTakesEffect", "P04_Restores"],
                 mc=([M("ESDTNFTTransfer,MultiESDTNFTTransfer,create,flags", hs=("u0a", "u1a"), ptoks=("4e",), pshards=(0, 1), freeze=(), rejected=False),
-                     M("ESDTTransfer,MultiESDTNFTTransfer,flags,mintburn,issue", hs=("u0a", "u0b"), supply=3, rejsample=20)],
-                    [M("ESDTNFTTransfer,MultiESDTNFTTransfer,create,flags", ptoks=("4e",), pshards=(0, 1), freeze=(), accsample=2), M("ESDTTransfer,MultiESDTNFTTransfer,flags,mintburn,issue", freeze=("u0a", "u1a"), pshards=(0, 1), supply=3, accsample=5)]),
+                     M("ESDTTransfer,MultiESDTNFTTransfer,flags,mintburn,issue", hs=("u0a", "u0b"), supply=3, rejsample=20),
+                     M("create,ESDTNFTTransfer,nftflags,flags")],
+                    [M("ESDTNFTTransfer,MultiESDTNFTTransfer,create,flags", ptoks=("4e",), pshards=(0, 1), freeze=(), accsample=2), M("create,metaops,ESDTNFTTransfer,nftflags,flags", freeze=("u0a", "u1a")), M("ESDTTransfer,MultiESDTNFTTransfer,flags,mintburn,issue", freeze=("u0a", "u1a"), pshards=(0, 1), supply=3, accsample=5)]),
                 need=dict(unflagged_ok=5, frozen_rej=3, paused_rej=3, flag_ok=10, refund_ok=1)),
     "C05": dict(profile="kv", preds=["P05_Protected", "P05_KVExact", "P05_Frame"],
                 mc=([M("kv,ESDTTransfer,acct")],
@@ -59,8 +60,8 @@ LEDGER = {
                     [M("create,handover,ESDTNFTTransfer", ctr=2, accsample=2), M("create,handover,ESDTNFTTransfer,MultiESDTNFTTransfer", ctr=2, hs=("u0a", "u1a"), accsample=2)]),
                 need=dict(create_ok=15, handover_ok=2, handover_deliver=1, faults_soft=3)),
     "C08": dict(profile="meta", preds=["P08_Conf", "P08_Create", "P08_OnlyUriAttr", "P08_UriAttrExact", "P08_WrongHash"],
-                mc=([M("create,metaops,ESDTNFTTransfer")],
-                    [M("create,metaops,ESDTNFTTransfer,MultiESDTNFTTransfer", ctr=1), M("create,metaops,ESDTNFTTransfer", msgs=2, ctr=2, hs=("u0a", "u1a"), accsample=2)]),
+                mc=([M("create,metaops,ESDTNFTTransfer,nftflags")],
+                    [M("create,metaops,ESDTNFTTransfer,MultiESDTNFTTransfer", ctr=1), M("create,metaops,ESDTNFTTransfer,nftflags", hs=("u0a", "u1a"), freeze=("u0a", "u1a")), M("create,metaops,ESDTNFTTransfer", msgs=2, ctr=2, hs=("u0a", "u1a"), accsample=2)]),
                 need=dict(create_ok=10, meta_fn_ok=2, tok_ok=15, deliver_ok=3)),
     "C09": dict(profile="payable", preds=["P09_Admissible", "P09_Rejected"],
                 mc=([M("ESDTTransfer,ESDTNFTTransfer,MultiESDTNFTTransfer,create,issue", hs=("u0a", "u1a", "c1a"))],
